@@ -21,6 +21,8 @@ SIZES = [1, 1, 2, 2, 4, 4, 8, 8, 4, 8]
 SPFS = [1, 2, 3, 4, 5, 7, 12]
 WINDOPS = ["EQ", "GE", "GT", "LE", "LT", "NE", "SET", "CLR"]
 
+BIGS = [(1 << 31) + 5, -(1 << 31) - 7, (1 << 40) + 1, (1 << 53) + 1, -(1 << 53) - 1, (1 << 62) + 3]
+
 TAGKEY = {
     "alloczero": "getdata/zero-length-buffer-internal-error",
     "mplexseek": "getdata/mplex-lookback-reseek-range-error",
@@ -115,6 +117,11 @@ class Case:
                     vals[j] = rng.choice([(1 << bits) - 1, 1 << (bits - 1), rng.getrandbits(bits)])
                 else:
                     vals[j] = rng.choice([-(1 << (bits - 1)), (1 << (bits - 1)) - 1, rng.getrandbits(bits - 1)])
+        if t in (6, 7) and n and rng.random() < 0.35:
+            # values beyond 31 and 53 bits (they must survive as WINDOW thresholds, BIT inputs, ...)
+            for k in range(min(4, n)):
+                v = rng.choice(BIGS)
+                vals[rng.randrange(n)] = abs(v) if t == 7 else v
         return vals
 
     def add_raw(self, frag):
@@ -131,6 +138,8 @@ class Case:
             n = rng.choice([0, 1])
         style = rng.choice(["rand", "rand", "ramp", "cycle"])
         vals = self.raw_values(t, n, style)
+        self.rawvals = getattr(self, "rawvals", {})
+        self.rawvals[name] = (t, vals)
         big = frag["big"]
         enc = frag.get("enc", "none")
         if enc == "text":
@@ -152,7 +161,10 @@ class Case:
                 self.files[name + ".xz"] = lzma.compress(data, format=lzma.FORMAT_XZ)
             else:
                 self.files[name] = data
-        frag["lines"].append("%s RAW %s %d" % (name, TYPES[t], spf))
+        spfc = self.iscalar(spf, frag, 0.1)
+        if spfc != str(spf):
+            self.scalar_phase = getattr(self, "scalar_phase", set()) | {name}      # extents depend on a scalar field code
+        frag["lines"].append("%s RAW %s %s" % (name, TYPES[t], spfc))
         mask = (1 << (8 * SIZES[t])) - 1
         hexs = []
         for v in vals:
@@ -186,6 +198,30 @@ class Case:
             frag["lines"].append("%s CARRAY FLOAT64 %s" % (cn, " ".join(fmtd(v) for v in vs)))
             return "%s<%d>" % (cn, pos)
         return fmtd(x)
+
+    def iscalar(self, x, frag, p=0.35):
+        """an integer parameter as a literal or as a CONST / CARRAY<n> field code of an integer type that holds it"""
+        rng = self.rng
+        if rng.random() >= p:
+            return str(x)
+        self.nconst += 1
+        cands = [ty for ty, lo, hi in (("INT8", -128, 127), ("UINT8", 0, 255), ("INT16", -32768, 32767), ("UINT16", 0, 65535),
+                                       ("INT32", -2**31, 2**31 - 1), ("UINT32", 0, 2**32 - 1), ("INT64", -2**63, 2**63 - 1),
+                                       ("UINT64", 0, 2**64 - 1)) if lo <= x <= hi]
+        if abs(x) < 2**53:
+            cands.append("FLOAT64")
+        ty = rng.choice(cands[:3] + cands[-2:])
+        lit = (fmtd(x) if ty == "FLOAT64" else str(x))
+        if rng.random() < 0.5:
+            cn = "ki%d" % self.nconst
+            frag["lines"].append("%s CONST %s %s" % (cn, ty, lit))
+            return cn
+        cn = "kia%d" % self.nconst
+        pos = rng.randrange(3)
+        vs = ["1", "0", "2"]
+        vs[pos] = lit
+        frag["lines"].append("%s CARRAY %s %s" % (cn, ty, " ".join(vs)))
+        return "%s<%d>" % (cn, pos)
 
     def pick(self, want_int=False, maxdepth=None):
         rng = self.rng
@@ -262,7 +298,10 @@ class Case:
             d = "def %s recip %s %x" % (name, a[0], dbits(dv))
         elif kind == "phase":
             sh = rng.choice([-1, 1, -2, 2, -3, 3, 5, -5, 7, -7, 0, rng.randint(-60, 60), a[3], -a[3], 2 * a[3]])
-            line = "%s PHASE %s %d" % (name, a[0], sh)
+            shc = self.iscalar(sh, frag)
+            if shc != str(sh):
+                self.scalar_phase = getattr(self, "scalar_phase", set()) | {name}
+            line = "%s PHASE %s %s" % (name, a[0], shc)
             d = "def %s phase %s %d" % (name, a[0], sh)
             intish = a[4]
             safe = a[5]
@@ -273,12 +312,15 @@ class Case:
             d = "def %s polynom %s %d %s" % (name, a[0], k, " ".join("%x" % dbits(x) for x in co))
         elif kind == "window":
             op = rng.choice(WINDOPS)
+            bvals = [v for v in getattr(self, "rawvals", {}).get(b[0], (0, []))[1] if isinstance(v, int) and -2**63 <= v < 2**63]
             if op in ("EQ", "NE"):
-                thr = rng.randint(-2, 6); ts = str(thr); td = str(thr)
+                thr = rng.choice(bvals) if bvals and rng.random() < 0.5 else rng.choice([rng.randint(-5, 6), rng.randint(-5, 6), rng.choice(BIGS)])
+                ts = self.iscalar(thr, frag); td = str(thr)
             elif op in ("SET", "CLR"):
-                thr = rng.choice([1, 2, 3, 4, 6, 255]); ts = str(thr); td = str(thr)
+                thr = rng.choice([1, 2, 3, 4, 6, 255, 1 << 31, (1 << 33) + 1, (1 << 53) + 2])
+                ts = self.iscalar(thr, frag); td = str(thr)
             else:
-                thr = rng.choice([0, 1, 2.5, 5, 10, -1]); ts = fmtd(thr); td = "%x" % dbits(thr)
+                thr = rng.choice([0, 1, 2.5, 5, 10, -1, -2.25, 2.0 ** 31 + 0.5, -(2.0 ** 33)]); ts = S(thr); td = "%x" % dbits(thr)
             line = "%s WINDOW %s %s %s %s" % (name, a[0], b[0], op, ts)
             d = "def %s window %s %s %s %s" % (name, a[0], b[0], op, td)
             intish = a[4]
@@ -286,14 +328,14 @@ class Case:
         elif kind == "mplex":
             cnt = rng.choice([0, 1, 1, 2, 3])
             per = rng.choice([0, 0, 2, 4])
-            line = "%s MPLEX %s %s %d %d" % (name, a[0], b[0], cnt, per)
+            line = "%s MPLEX %s %s %s %s" % (name, a[0], b[0], self.iscalar(cnt, frag), self.iscalar(per, frag))
             d = "def %s mplex %s %s %d %d" % (name, a[0], b[0], cnt, per)
             intish = a[4]
             safe = a[5] and b[5]
         elif kind in ("bit", "sbit"):
             nb = rng.choice([1, 2, 3, 4, 8, 8, 16, 64])
             bn = 0 if nb == 64 else rng.choice([0, 0, 1, 2, 3, 5])
-            line = "%s %s %s %d %d" % (name, kind.upper(), a[0], bn, nb)
+            line = "%s %s %s %s %s" % (name, kind.upper(), a[0], self.iscalar(bn, frag), self.iscalar(nb, frag))
             d = "def %s %s %s %d %d" % (name, kind, a[0], bn, nb)
             intish = True
             safe = a[5]
@@ -324,6 +366,8 @@ class Case:
         ins = [a] + ([b] if two else []) + ([c] if kind == "lincom3" else [])
         mixed = any(x[6] for x in ins) or any(x[3] != a[3] for x in ins)
         hasmplex = kind == "mplex" or any(x[7] for x in ins)
+        if any(x[0] in getattr(self, "scalar_phase", set()) for x in ins):
+            self.scalar_phase = getattr(self, "scalar_phase", set()) | {name}
         self.fields.append((name, kind, depth, a[3], intish, safe, mixed, hasmplex))
 
     def build(self):
@@ -492,6 +536,9 @@ def run_cases(cases, exe, drv, root, jobs=16, want_extents=False):
         for c in ch:
             lines.append("O %s" % c.dir)
             lines.append("L %d" % getattr(c, "lb", -1))
+            if want_extents:          # also before any read: the extents must not depend on what was read before
+                for f in c.fields:
+                    lines.append("E %s" % f[0])
             for (f, rt, s, n) in c.qs:
                 lines.append("G %s %d %d %d" % (f, rt, s, n))
             if want_extents:
@@ -532,6 +579,11 @@ def run_cases(cases, exe, drv, root, jobs=16, want_extents=False):
             body = bl[:-1]
             c.open_err = body[0].split()[1] if body and body[0].startswith("O ") else "crash"
             ip = 2          # "O ..", "L"
+            c.ext0 = []
+            if want_extents:
+                for f in c.fields:
+                    c.ext0.append((f, body[ip] if ip < len(body) else ""))
+                    ip += 1
             c.mres = []
             for q in c.qs:
                 mm = parse_model(ml[mp]) if mp < len(ml) else None
